@@ -362,6 +362,8 @@ class NoteContainer(object):
 
     def __eq__(self, other):
         """Enable the '==' operator for NoteContainer instances."""
+        if other is None:
+            return False
         if len(self) != len(other):
             return False
         for x in self:
